@@ -225,8 +225,22 @@ func (p *c09) plant(r *lib.Rand, g *gen.SpecGen, doc map[string]any, leafKind st
 		}
 	}
 	pick := r.Intn(len(opNodes))
+	kind := r.Intn(9) // which location class gets the plant (drawn here: response-schema plants choose their operation)
+	stripP := 0.5
+	if kind == 4 {
+		// a response-schema plant prefers an operation whose path has no placeholder, and mostly makes it an operation
+		// without parameters and response headers: nothing then re-initialises the validators' per-location state
+		// between the response visited before and this one
+		for i, pth := range opPaths {
+			if !strings.Contains(pth, "{") {
+				pick = i
+				break
+			}
+		}
+		stripP = 0.85
+	}
 	opNode = opNodes[pick]
-	if !strings.Contains(opPaths[pick], "{") && r.P(0.5) {
+	if !strings.Contains(opPaths[pick], "{") && r.P(stripP) {
 		// an operation without any parameter and without response headers (nothing resets the
 		// validators' per-location state between the previous operation and this response)
 		delete(opNode, "parameters")
@@ -240,7 +254,7 @@ func (p *c09) plant(r *lib.Rand, g *gen.SpecGen, doc map[string]any, leafKind st
 	params := func() []any { ps, _ := opNode["parameters"].([]any); return ps }
 	resp200 := opNode["responses"].(map[string]any)["200"].(map[string]any)
 	depth := r.Range(0, 4)
-	switch k := r.Intn(9); {
+	switch k := kind; {
 	case k <= 2:
 		// a definition
 		dn := []string{"Pet", "a", "Tags", "Dx", "t", "Items", "name"}[r.Intn(7)]
